@@ -67,6 +67,8 @@ def check_page(case, rec: Rec) -> None:
         rec.label("decorated-header")
     if stats["h34"]:
         rec.label("h34")
+    if not case["page"]["title"]:
+        rec.label("bare-#-title-line")
     rec.info["pages"] = 1
     rec.info["notes"] = len(exp)
     rec.nontrivial = nsec >= 2 and deco >= 1
